@@ -288,3 +288,26 @@ reg(Prop("C14", "Time budget granted to a search never exceeds the clock", "Prop
          assumptions=["remaining time 1..9*10^12 ms, increment 0..2^60 ms (superset of the stated 10^12 / 10^9 domain)",
                       "time.Duration(h)*time.Millisecond is int64 multiplication by 10^6"],
          design_ref="5/C14"))
+
+
+reg(Prop("C02", "Playing a move produces the successor position the rules prescribe", "Properties/C02.v",
+         [StreamCfg("c02", 60000, 1200000, judge="judge_c02",
+                    rule="fixed en-passant / clock witnesses (F2, F5 and relatives); 25 % dedicated en-passant generator "
+                         "(double push next to enemy pawns with the enemy king and an own slider lined up through the "
+                         "destination, capturer, origin or passed-over square; both colours); 10 % positions with the "
+                         "halfmove clock set to 98..101, 126..129, 254..257, 32765, 32766; the rest G1/G2/G4 positions x "
+                         "every legal move; non-trivial = every case (a legal move played), distinct by (FEN, clock, move)"),
+          StreamCfg("c02uci", 3000, 60000, judge="judge_c02uci",
+                    rule="fresh in-process uci.Driver per case: position startpos|fen F moves ... then fen; legal lines "
+                         "of 0..24 (10 %: 60..140) plies, 60 % with one bad token in the middle (possible-but-illegal move, "
+                         "random square pair, wrong promotion suffix, malformed, one byte mutated, alias spelling); "
+                         "non-trivial = a non-empty move list, distinct by input")],
+         trusted=["hooks board/export_verif.go (VerifSnapshot/VerifRestore: field copies) and the exported uci.NewDriver options; "
+                  "harness/hx/fen.go (strict parser of the printed FEN into six integers, independent of board.FromFEN)",
+                  "the position set up by `position fen F` is taken from board.FromFEN (FEN parsing is property C11)",
+                  "attack tables = ray geometry is property C12 (Model/Att.v uses the geometric definitions; the streams run "
+                  "the Go code, which uses the magic tables, against them)"],
+         assumptions=["halfmove clock before the move in 0..32766 (int16 after fix cb6b25d; C02_clock states the wrap)",
+                      "C02_chain / C02_uci_legal carry the named hypothesis valid_step_statement (a legal move leads from a valid "
+                      "position to a valid one; a statement about Spec/Chess.v alone) and zob_ok z (64-bit Zobrist entries; proved for the generated tables)"],
+         design_ref="5/C02"))
